@@ -593,11 +593,20 @@ func (fv *FuncVC) callContract(call *ast.CallExpr, fi *FuncInfo, recv *Val, args
 			fv.addFact(st, mkEq(results[0].T, t))
 		}
 	}
+	// atlock(e) in a callee's postcondition denotes a state inside the callee (right after its Lock()):
+	// unknown to the caller, so every heap is arbitrary there.
+	savedSnap := fv.lockSnap
+	snap := st.clone()
+	for h, srt := range fv.heapSort {
+		snap.heaps[h] = fv.th.freshConst(sanitize(h)+"$atlock", srt)
+	}
+	fv.lockSnap = snap
 	for _, c := range fc.Ensures {
 		sc := fv.calleeScope(fi, st, pre, bind, resBind)
 		g := fv.specBool(c.Expr, sc)
 		fv.addFact(st, g)
 	}
+	fv.lockSnap = savedSnap
 	return results
 }
 
@@ -610,6 +619,10 @@ func (fv *FuncVC) resolveHeapName(m string) (Sort, bool) {
 		return arraySort(SRef, arraySort(SInt, Sort(strings.TrimPrefix(m, "H$")))), true
 	case strings.HasPrefix(m, "P$"):
 		return arraySort(SRef, Sort(strings.TrimPrefix(m, "P$"))), true
+	case m == "G$lasterr":
+		return arraySort(SRef, SRef), true
+	case strings.HasPrefix(m, "G$"):
+		return arraySort(SRef, SInt), true
 	}
 	return "", false
 }
@@ -729,6 +742,18 @@ func (fv *FuncVC) modLocs(entries []string, sc *SpecScope) []modLoc {
 		case *SCall:
 			id, _ := x.Fun.(*SIdent)
 			if id != nil && len(x.Args) == 1 {
+				if id.Name == "runs" || id.Name == "lasterr" {
+					lit, ok := x.Args[0].(*SStrLit)
+					if !ok {
+						specFail("modifies %s(): string literal expected", id.Name)
+					}
+					h := "G$" + id.Name
+					if s, ok := fv.resolveHeapName(h); ok {
+						fv.heapDecl(h, s)
+					}
+					out = append(out, modLoc{h, fv.execKeyRef(lit.V)})
+					continue
+				}
 				a := fv.specEval(x.Args[0], sc)
 				switch id.Name {
 				case "contents":
